@@ -924,6 +924,49 @@ impl Profile {
   }
 }
 
+impl Profile {
+  /// the core validation fragment of C01 (JSON) / C02 (CBOR adds bytes, tags, major types, non-text keys)
+  pub fn core(cbor: bool) -> Profile {
+    Profile {
+      max_rules: 5,
+      max_depth: 3,
+      max_entries: 4,
+      generics: false,
+      sockets: false,
+      group_rules: true,
+      alt_assign: false,
+      floats: true,
+      bytes: cbor,
+      tags: cbor,
+      major: cbor,
+      unwrap_enum: false,
+      ranges: true,
+      controls: &["lt", "le", "gt", "ge", "eq", "ne", "size"],
+      cuts: true,
+      nontext_keys: cbor,
+      type_keys: true,
+      group_choices: true,
+      inline_groups: true,
+      text_pool: &["a", "b", "k", "x y", "", "é"],
+      prelude: if cbor { &["int", "uint", "nint", "tstr", "text", "bool", "nil", "null", "float", "number", "any", "true", "false", "bstr", "bytes", "float64", "undefined"] } else { &["int", "uint", "nint", "tstr", "text", "bool", "nil", "null", "float", "number", "any", "true", "false"] },
+      small_ints: true,
+      wild_refs: false,
+    }
+  }
+
+  /// the shared JSON/CBOR feature set of C04/C08/C09/C10: core + generics, sockets, unwrap, group-to-choice, .and/.within/.default
+  pub fn shared() -> Profile {
+    Profile {
+      generics: true,
+      sockets: true,
+      alt_assign: true,
+      unwrap_enum: true,
+      controls: &["lt", "le", "gt", "ge", "eq", "ne", "size", "and", "within", "default"],
+      ..Profile::core(false)
+    }
+  }
+}
+
 struct Sig {
   name: String,
   arity: usize,
@@ -942,6 +985,8 @@ pub struct Gen<'r> {
   params: Vec<String>,
   /// index of the rule being generated
   cur: usize,
+  /// nesting depth inside array / map / tag constructors (references there are guarded)
+  guard: usize,
 }
 
 const NAME_POOL: &[&str] = &["r", "foo", "bar-baz", "a.b", "@at", "_u", "x1", "T", "my-type", "n$x", "q.r-s", "zz9", "Item", "node", "leaf", "v-1.2"];
@@ -951,7 +996,7 @@ impl<'r> Gen<'r> {
     let allow_any_hash = rng.chance(1, 4);
     let allow_paren_key = rng.chance(1, 6);
     let allow_bare_group_rule = rng.chance(1, 8);
-    Gen { rng, p, allow_any_hash, allow_paren_key, allow_bare_group_rule, sigs: vec![], params: vec![], cur: 0 }
+    Gen { rng, p, allow_any_hash, allow_paren_key, allow_bare_group_rule, sigs: vec![], params: vec![], cur: 0, guard: 0 }
   }
 
   fn lit_uint(&mut self) -> u64 {
@@ -989,6 +1034,10 @@ impl<'r> Gen<'r> {
   }
 
   fn float(&mut self) -> f64 {
+    if self.p.small_ints {
+      // non-integral, so that JSON can tell it from an integer
+      return self.rng.range(-6, 6) as f64 + *self.rng.pick(&[0.5, 0.25, 0.75]);
+    }
     match self.rng.below(8) {
       0 => *self.rng.pick(&[0.0, 1.0, -1.0, 1.5, -0.5, 1e10, 1e-7, 3.141592653589793, 1e300, 5e-324, 1.7976931348623157e308, 0.1, 100.0, 65504.0]),
       1 => f64::from_bits(self.rng.next_u64() & 0x7fefffffffffffff | (self.rng.next_u64() & (1 << 63))),
@@ -1026,7 +1075,10 @@ impl<'r> Gen<'r> {
 
   /// pick a reference to a rule of the wanted kind (group or type); None when there is none
   fn pick_rule(&mut self, group: bool) -> Option<(String, usize)> {
-    let c: Vec<usize> = (0..self.sigs.len()).filter(|i| self.sigs[*i].group == group).collect();
+    let c: Vec<usize> = (0..self.sigs.len())
+      .filter(|i| self.sigs[*i].group == group)
+      .filter(|i| self.p.wild_refs || *i > self.cur || (!group && self.guard > 0))
+      .collect();
     if c.is_empty() {
       return None;
     }
@@ -1071,14 +1123,25 @@ impl<'r> Gen<'r> {
       0 => GType2::Lit(self.lit(true)),
       1 => self.name_ref(d),
       2 => GType2::Paren(self.type_(d - 1)),
-      3 => GType2::Map(self.group(d - 1, true)),
-      4 => GType2::Array(self.group(d - 1, false)),
+      3 => {
+        self.guard += 1;
+        let g = self.group(d - 1, true);
+        self.guard -= 1;
+        GType2::Map(g)
+      }
+      4 => {
+        self.guard += 1;
+        let g = self.group(d - 1, false);
+        self.guard -= 1;
+        GType2::Array(g)
+      }
       5 => match self.pick_rule(false) {
         Some((n, a)) => {
           let args = self.gargs(a, d);
           GType2::Unwrap(n, args)
         }
-        None => GType2::Unwrap("uu".into(), vec![]),
+        None if self.p.wild_refs => GType2::Unwrap("uu".into(), vec![]),
+        None => GType2::Name(self.rng.pick(self.p.prelude).to_string(), vec![]),
       },
       6 => GType2::EnumInline(self.group(d - 1, true)),
       7 => match self.pick_rule(true) {
@@ -1086,7 +1149,8 @@ impl<'r> Gen<'r> {
           let args = self.gargs(a, d);
           GType2::EnumName(n, args)
         }
-        None => GType2::EnumName("gg".into(), vec![]),
+        None if self.p.wild_refs => GType2::EnumName("gg".into(), vec![]),
+        None => GType2::Name(self.rng.pick(self.p.prelude).to_string(), vec![]),
       },
       8 => {
         let c = match self.rng.below(5) {
@@ -1094,7 +1158,10 @@ impl<'r> Gen<'r> {
           1 if !self.params.is_empty() => Some(GTagC::Type(self.rng.pick(&self.params).clone())),
           _ => Some(GTagC::Lit(*self.rng.pick(&[0u64, 1, 2, 24, 32, 255, 256, 55799, 65536, 4294967296, 18446744073709551615]))),
         };
-        GType2::Tag(c, self.type_(d - 1))
+        self.guard += 1;
+        let t = self.type_(d - 1);
+        self.guard -= 1;
+        GType2::Tag(c, t)
       }
       9 => {
         let mt = self.rng.below(8) as u8;
@@ -1112,7 +1179,66 @@ impl<'r> Gen<'r> {
     }
   }
 
+  /// ranges and controls that mean something (validation workloads)
+  fn type1_semantic(&mut self, d: usize) -> Option<GType1> {
+    let r = self.rng.below(12);
+    if r == 0 && self.p.ranges {
+      let lo = self.rng.range(-4, 6);
+      let hi = lo + self.rng.range(0, 6);
+      let mk = |n: i64| if n >= 0 { GLit::Uint(n as u64) } else { GLit::Nint(n as i128) };
+      if self.p.floats && self.rng.chance(1, 4) {
+        return Some(GType1 { t2: GType2::Lit(GLit::Float(lo as f64 + 0.5)), op: Some((GOp::Range { incl: self.rng.bool() }, GType2::Lit(GLit::Float(hi as f64 + 1.25)))) });
+      }
+      return Some(GType1 { t2: GType2::Lit(mk(lo)), op: Some((GOp::Range { incl: self.rng.bool() }, GType2::Lit(mk(hi)))) });
+    }
+    if r == 1 && !self.p.controls.is_empty() {
+      let c = self.rng.pick(self.p.controls).to_string();
+      let num = |g: &mut Gen| {
+        let n = g.rng.range(-3, 6);
+        if n >= 0 {
+          GLit::Uint(n as u64)
+        } else {
+          GLit::Nint(n as i128)
+        }
+      };
+      let (target, rhs): (GType2, GType2) = match c.as_str() {
+        "lt" | "le" | "gt" | "ge" => (name(self.rng.pick_str(&["int", "uint", "number", "int"])), GType2::Lit(num(self))),
+        "eq" | "ne" => {
+          if self.rng.bool() {
+            (name(self.rng.pick_str(&["int", "uint", "any", "number"])), GType2::Lit(num(self)))
+          } else {
+            (name(self.rng.pick_str(&["tstr", "text", "any"])), GType2::Lit(GLit::Text(self.rng.pick(self.p.text_pool).to_string())))
+          }
+        }
+        "size" => {
+          let t = name(if self.p.bytes { self.rng.pick_str(&["tstr", "bstr", "uint", "tstr"]) } else { self.rng.pick_str(&["tstr", "uint", "tstr"]) });
+          let n = self.rng.below(4);
+          if self.rng.chance(1, 3) && t != name("uint") {
+            (t, GType2::Paren(GType { choices: vec![GType1 { t2: GType2::Lit(GLit::Uint(n)), op: Some((GOp::Range { incl: self.rng.bool() }, GType2::Lit(GLit::Uint(n + 1 + self.rng.below(3))))) }] }))
+          } else {
+            (t, GType2::Lit(GLit::Uint(n)))
+          }
+        }
+        "and" | "within" => {
+          let a = self.type2(d.min(1));
+          let b2 = self.type2(d.min(1));
+          (a, b2)
+        }
+        "default" => (self.type2(d.min(1)), GType2::Lit(GLit::Uint(1))),
+        _ => return None,
+      };
+      return Some(GType1 { t2: target, op: Some((GOp::Ctl(c), rhs)) });
+    }
+    None
+  }
+
   pub fn type1(&mut self, d: usize) -> GType1 {
+    if !self.p.wild_refs {
+      if let Some(t) = self.type1_semantic(d) {
+        return t;
+      }
+      return GType1 { t2: self.type2(d), op: None };
+    }
     let t2 = self.type2(d);
     let r = self.rng.below(10);
     if r == 0 && self.p.ranges {
@@ -1163,7 +1289,13 @@ impl<'r> Gen<'r> {
         if !self.p.type_keys {
           return Some(GKey::Value(GLit::Text(self.rng.pick(self.p.text_pool).to_string())));
         }
-        let mut t1 = self.type1(d.min(1));
+        let mut t1 = if self.p.wild_refs {
+          self.type1(d.min(1))
+        } else {
+          // key domains of tables: scalar prelude types or literal keys
+          let doms: &[&str] = if self.p.nontext_keys { &["tstr", "uint", "int", "tstr", "bstr", "nint"] } else { &["tstr", "text", "tstr"] };
+          GType1 { t2: name(self.rng.pick_str(doms)), op: None }
+        };
         if !self.allow_paren_key {
           if let GType2::Paren(_) = t1.t2 {
             t1.t2 = GType2::Name("tstr".into(), vec![]);
@@ -1759,7 +1891,12 @@ impl Tags {
         self.occ(occ, ctx);
         match key {
           None => self.add(&format!("{}.entry.keyless", ctx)),
-          Some(GKey::Bare(_)) => self.add(&format!("{}.key.bare", ctx)),
+          Some(GKey::Bare(n)) => {
+            self.add(&format!("{}.key.bare", ctx));
+            if PRELUDE_ALL.contains(&n.as_str()) {
+              self.add("key.bare.prelude-name");
+            }
+          }
           Some(GKey::Value(l)) => {
             self.add(&format!("{}.key.value", ctx));
             self.lit(l, ".key");
@@ -1793,6 +1930,9 @@ impl Tags {
     for c in &g.choices {
       if c.entries.is_empty() {
         self.add(&format!("{}.empty", ctx));
+      }
+      if c.entries.len() > 1 {
+        self.add(&format!("{}.members.multi", ctx));
       }
       for e in &c.entries {
         self.e(e, ctx);
